@@ -5,9 +5,12 @@ from vlib.coqlit import *
 
 ID = "C20"
 COQ_PROPS = "Props/C20.v"
-THEOREMS = ["C20_tm_same", "C20_tm_h", "C20_tm_hm", "C20_tm_hms"]
+THEOREMS = ["C20_tm_same", "C20_tm_h", "C20_tm_hm", "C20_tm_hms",
+            "C20_tm_src_is_model", "C20_tm_src_same", "C20_tm_src_hms", "C20_tm_src_hm", "C20_tm_src_h"]
+TABLES = ["t_time"]
 ALLOWED_AXIOMS = []
-TRUSTED_BASE = ["Common/F64.v `fl` as the model of IEEE binary64 round-to-nearest-even (Python float(), int+float)",
+TRUSTED_BASE = ["tools/tables/t_time.py: statement-by-statement translator of the two TM functions into Gallina (fail-closed outside its vocabulary); Common/PyOps.v as the meaning of the translated primitives",
+                "Common/F64.v `fl` as the model of IEEE binary64 round-to-nearest-even (Python float(), int+float)",
                 "Common/PyNum.v py_int / py_float as models of Python int() / float() on strings without non-ASCII digits"]
 ASSUMPTIONS = ["TM strings are ASCII; signed zero is not distinguished"]
 
